@@ -105,8 +105,7 @@ Qed.
 Lemma cells_checked : cells_ok gen_cells = true.
 Proof. vm_compute. reflexivity. Qed.
 
-(* every cache-key attribute of the current source, except the listed by-reference ones, is assigned a
-   constant, a copy or an immutable scalar *)
+(* every cache-key attribute of the current source is assigned a constant, a copy or an immutable scalar *)
 Lemma keys_checked : keys_complete gen_key_stores && keys_ok gen_key_stores = true.
 Proof. vm_compute. reflexivity. Qed.
 
@@ -115,4 +114,10 @@ Lemma keys_ok_sound g : keys_ok g = true ->
 Proof.
   intros H c a m k Hin Hn. unfold keys_ok in H. rewrite forallb_forall in H.
   specialize (H _ Hin). cbv beta iota in H. rewrite Hn in H. rewrite Bool.orb_false_r in H. exact H.
+Qed.
+
+Lemma keys_by_value : forall c a m k, In (c, a, m, k) gen_key_stores -> kstore_by_value k = true.
+Proof.
+  intros c a m k Hin. pose proof keys_checked as H. apply Bool.andb_true_iff in H.
+  apply (keys_ok_sound gen_key_stores (proj2 H) c a m k Hin). reflexivity.
 Qed.
